@@ -60,7 +60,7 @@ fn judge(out: &mut Out, stratum: &str, r: &V, envs: &[V]) {
     for (route, res) in [("optimize_sexp", opt_classic(r)), ("run_optimizer", opt_modern(r))] {
         match res {
             Err(m) => {
-                out.violation(json!({"kind":"optimiser_rejects_value_returning_program","engine":"c04","sig":sig_for(r),"route":route,"stratum":stratum,
+                out.violation(json!({"kind":"optimiser_rejects_value_returning_program","engine":"c04","sig":sig_for_env(r, Some(&envs[vals[0].0])),"route":route,"stratum":stratum,
                     "program_hex":r.hex(),"program":trunc(&r.show(),400),"env":envs[vals[0].0].show(),"env_hex":envs[vals[0].0].hex(),"value":vals[0].1.show(),"error":trunc(&m,300)}));
             }
             Ok(r1) => {
@@ -77,7 +77,7 @@ fn judge(out: &mut Out, stratum: &str, r: &V, envs: &[V]) {
                         Outcome::Val(ref g) if g == v => out.count("agree"),
                         Outcome::CostCap => out.inconclusive("costcap_after", json!({"program": r.show()})),
                         other => {
-                            out.violation(json!({"kind":"optimiser_changed_meaning","engine":"c04","sig":sig_for(r),"route":route,"stratum":stratum,
+                            out.violation(json!({"kind":"optimiser_changed_meaning","engine":"c04","sig":sig_for_env(r, Some(&envs[*k])),"route":route,"stratum":stratum,
                                 "program_hex":r.hex(),"program":trunc(&r.show(),400),"optimised":trunc(&r1.show(),400),
                                 "env_hex":envs[*k].hex(),"env":trunc(&envs[*k].show(),200),"expected":v.show(),"got":other.show()}));
                         }
@@ -119,11 +119,25 @@ fn has_list_head(v: &V) -> bool {
 }
 
 fn sig_for(r: &V) -> Option<String> {
+    sig_for_env(r, None)
+}
+
+/// also when the code that uses the legacy syntax is only built at run time: (a X E) where X evaluates (under the
+/// environment of the failing run) to a program with a list in an operator position
+fn sig_for_env(r: &V, env: Option<&V>) -> Option<String> {
     if has_list_head(r) {
-        Some("optimiser:legacy-head-list-syntax".to_string())
-    } else {
-        None
+        return Some("optimiser:legacy-head-list-syntax".to_string());
     }
+    if let (Some(env), Some(l)) = (env, r.proper_list()) {
+        if l.len() == 3 && l[0] == V::A(vec![2]) {
+            if let Outcome::Val(code) = consensus_run_cap(&l[1], env, 100_000_000) {
+                if has_list_head(&code) {
+                    return Some("optimiser:legacy-head-list-syntax".to_string());
+                }
+            }
+        }
+    }
+    None
 }
 
 fn opv(o: u8, args: &[V]) -> V {
